@@ -166,11 +166,20 @@ def introSpec {EF} (ext : Bytes → Bytes) (rg : TsRange) (decEF : Members → O
 
 /-! ## Text level -/
 
-/-- the HTTP path (`endpoint_response`): one value from the front of the body, the rest is never looked at (F5) -/
-def decodeIntroBody {EF} (ext : Bytes → Bytes) (rg : TsRange) (decEF : Members → Option EF) (body : Bytes) :
+/-- the HTTP path as on the PINNED tree (before fix 896fd71): one value from the front of the body, the rest was never
+looked at (F5) -/
+def decodeIntroBodyPinned {EF} (ext : Bytes → Bytes) (rg : TsRange) (decEF : Members → Option EF) (body : Bytes) :
     Option (IntroResp EF) :=
   match parsePrefix body with
   | some (j, _) => decodeIntro ext rg decEF j
+  | none => none
+
+/-- the HTTP path (`endpoint_response` → `deserialize_json`): the body must be ONE JSON document
+(`Deserializer::end`: only whitespace may follow the value) -/
+def decodeIntroBody {EF} (ext : Bytes → Bytes) (rg : TsRange) (decEF : Members → Option EF) (body : Bytes) :
+    Option (IntroResp EF) :=
+  match parseDocument body with
+  | some j => decodeIntro ext rg decEF j
   | none => none
 
 /-- `serde_json::from_slice`: the whole text must be one document -/
